@@ -446,24 +446,43 @@ def check_xml_reader(rep, F):
     # --- start: add under top, all attributes, push
     st = F.one(start_q)
     rep.analysed(st)
-    g = CFG(st)
-    calls = [n for n in st.walk() if n.get("k") == "mcall"]
-    add = [n for n in calls if (n.get("callee") or "").endswith("Property::add")]
-    seta = [n for n in calls if (n.get("callee") or "").endswith("Property::setAttribute")]
-    push = [n for n in calls if re.search(r"stack<.*>::push$", n.get("callee") or "")]
+    fst = Fold(st, record_calls=r"Property::add$|Property::setAttribute$|stack<.*>::push$").run()
+    evs = [e for e in fst.events if e["kind"] == "call"]
+    add = [e for e in evs if e["callee"].endswith("Property::add")]
+    seta = [e for e in evs if e["callee"].endswith("Property::setAttribute")]
+    push = [e for e in evs if re.search(r"stack<.*>::push$", e["callee"])]
+    eln, atn = st.j["params"][1]["name"], st.j["params"][2]["name"]
     ok = len(add) == 1 and len(seta) == 1 and len(push) == 1
     why = "expected one add / setAttribute / push, found %d/%d/%d" % (len(add), len(seta), len(push))
     if ok:
-        elp = st.j["params"][1]["decl"]
-        atp = st.j["params"][2]["decl"]
-        ok = any(x.get("k") == "ref" and x.get("decl") == elp for x in walk(add[0]["args"][0])) and "top()" in show(add[0]["obj"]).replace(" ", "") or \
-            (any(x.get("k") == "ref" and x.get("decl") == elp for x in walk(add[0]["args"][0])) and "top" in show(st.decls.get(unwrap(add[0]["obj"]).get("decl"), {}).get("init") or {}))
-        why = "the new element is not added under the current node with the element name"
-        if ok:
-            loops = [a for a in st.ancestors(seta[0]) if a.get("k") in ("for", "while")]
-            ok = bool(loops) and all(any(x.get("k") == "ref" and x.get("decl") == atp for x in walk(a_)) for a_ in seta[0]["args"]) \
-                and all(g.dominates(add[0]["id"], push[0]["id"]) for _ in (0,)) and all(g.dominates_block(g.where[push[0]["id"]][0], b) for b in g.exit_blocks(normal=True))
-            why = "attributes are not all copied (loop over attr pairs) or the new node is not made current on every path"
+        a_, s_, p_ = add[0], seta[0], push[0]
+        node = str(a_["value"]) if a_.get("value") is not None else None
+        ok = not a_["guards"] and str(a_["obj"]).startswith("top(") and eln in str(a_["args"][0])
+        why = "the new element is not added (unconditionally) under the current node with the element name"
+    if ok:
+        # the node that receives the attributes and is made current is the one just added; it is pushed on every path, after the add
+        ok = node is not None and str(s_["obj"]) == node and node in str(p_["args"][0]) and not p_["guards"] and not p_.get("not") and fst.events.index(a_) < fst.events.index(p_)
+        why = "the attributes go to / the stack receives a node other than the one just added, or the push is conditional"
+    if ok:
+        lids = [g_[0][1] for g_ in s_["guards"] if isinstance(g_[0], tuple) and g_[0] and g_[0][0] == "loop"]
+        lp = [l for l in fst.loops if lids and l["lid"] == lids[-1]]
+        ok, why = len(lp) == 1 and len(s_["guards"]) == 1, "the attributes are not copied in an unconditional loop over the attribute list"
+    if ok:
+        l = lp[0]
+        k_ = list(l["syms"])[0] if len(l["syms"]) == 1 else None
+        v = l["syms"].get(k_)
+        nm, vl = str(s_["args"][0]), str(s_["args"][1])
+        if k_ is not None and l["init"].get(k_) == 0:
+            # index form: attr[i], attr[i+1], i += 2 while attr[i]
+            good = ("at(%s, %s)" % (atn, v)) in nm and vl == "at(%s, %s + 1)" % (atn, v) and str(l["cond"]) == "at(%s, %s)" % (atn, v)
+        elif k_ is not None and str(l["init"].get(k_)) == atn:
+            # pointer form: p[0], p[1], p += 2 while *p
+            good = (("at(%s, 0)" % v) in nm or ("deref(%s)" % v) in nm) and vl == "at(%s, 1)" % v and str(l["cond"]) in ("deref(%s)" % v, "at(%s, 0)" % v)
+        else:
+            good = False
+        ok = good and k_ is not None and sp.simplify(l["step"][k_] - v - 2) == 0
+        why = "the attribute loop (start %s, step %s, condition %s) sets (%s, %s): not every (name, value) pair of the null-terminated list" % (
+            l["init"].get(k_), l["step"].get(k_), l["cond"], nm[:60], vl[:60])
     rep.check(ok, "R11.7", "xml-reader|start", "start tag: add child, copy every attribute, push", "%s: %s" % (start_q, why), st.loc())
     en = F.one(end_q)
     rep.analysed(en)
